@@ -354,6 +354,27 @@ func (e *env) apply(op Op) Event {
 		c2, cancel := context.WithTimeout(ctx, addTimeout)
 		err = e.w.Add(c2, []sop.RegistryPayload[sop.Handle]{{RegistryTable: table, IDs: hs}})
 		cancel()
+		if err != nil && (errors.Is(err, context.DeadlineExceeded) || c2.Err() != nil) {
+			// Timed out.  An Add of a present id blocks by design of the code; an Add of absent ids only times out
+			// when the machine is overloaded: tell the two apart by looking the ids up, and give the latter its time.
+			e.l2w.Clear(ctx) // drop the slot locks the abandoned call may have left
+			ids := make([]sop.UUID, len(hs))
+			for k := range hs {
+				ids[k] = hs[k].LogicalID
+			}
+			got, gerr := e.w.Get(ctx, []sop.RegistryPayload[sop.UUID]{{RegistryTable: table, IDs: ids}})
+			present := gerr != nil
+			for _, g := range got {
+				if len(g.IDs) > 0 {
+					present = true
+				}
+			}
+			if !present {
+				c3, cancel3 := context.WithTimeout(ctx, 60*time.Second)
+				err = e.w.Add(c3, []sop.RegistryPayload[sop.Handle]{{RegistryTable: table, IDs: hs}})
+				cancel3()
+			}
+		}
 		if err != nil {
 			if errors.Is(err, context.DeadlineExceeded) || c2.Err() != nil {
 				ev.Res = "blocked"
